@@ -422,6 +422,37 @@ func RuleKPrintPairs(c *core.Ctx) {
 				return
 			}
 			parity := false
+			// form 2: the loop index itself moves in steps of two (for i := 1; i < n; i += 2)
+			if len(call.Call.Args) >= 2 {
+				if ld, ok := core.Strip(call.Call.Args[1]).(*ssa.UnOp); ok {
+					if ia, ok := ld.X.(*ssa.IndexAddr); ok {
+						if ph, ok := ia.Index.(*ssa.Phi); ok {
+							steps := true
+							any := false
+							for i, e := range ph.Edges {
+								if !loop[ph.Block().Preds[i]] {
+									if _, isConst := e.(*ssa.Const); !isConst {
+										steps = false
+									}
+									continue
+								}
+								any = true
+								bo, ok := e.(*ssa.BinOp)
+								if !ok || bo.Op != token.ADD || bo.X != ssa.Value(ph) {
+									steps = false
+									continue
+								}
+								if k, ok := core.ConstInt(bo.Y); !ok || k != 2 {
+									steps = false
+								}
+							}
+							if f, _ := containerRoot(ia.X); f == postings && steps && any {
+								parity = true
+							}
+						}
+					}
+				}
+			}
 			var bad []string
 			for b := range loop {
 				iff, isIf := b.Instrs[len(b.Instrs)-1].(*ssa.If)
